@@ -468,6 +468,72 @@ func run(e *core.Env) {
 		}
 		e.Probe("second_wrap_on_one_session")
 	}
+	// ---- two receive workers at the wrap (a quarter of the end-to-end runs) ----
+	// A router unseals end-to-end frames on one worker per CPU. The last frame of the old epoch
+	// and the first one of the new epoch are unsealed by two tasks at once, the tape choosing
+	// who runs at every lock boundary of the session; either may be refused (it lost the race
+	// for the key change), but afterwards the receiver must be where the sender is: the next
+	// frames of the new epoch unseal.
+	if !link && tp.Chance(1, 4) {
+		sh.ReglSetOut(0xFFFFFFFF - uint32(3+tp.Intn(6)))
+		sealReg := func(k int) *sealedFrame {
+			f, _ := S.Inst.Builder.NewFrameV1(S.IP, R.IP, frame.NetworkTraffic, nil, []byte(fmt.Sprintf("two workers at the wrap, frame %d ......", k)), nil)
+			if err := f.Seal(sSess); err != nil {
+				e.Fail("seal-failed-or-panicked", "seal around the wrap: %v", err)
+			}
+			d, _ := f.FrameDataWithMargins(0, 0)
+			sf := &sealedFrame{seq: f.SequenceNum(), data: append([]byte(nil), d...)}
+			f.ReturnToPool()
+			return sf
+		}
+		var fs []*sealedFrame
+		for k := 0; k < 14; k++ {
+			fs = append(fs, sealReg(k))
+		}
+		lastOld := -1
+		for i, sf := range fs {
+			if sf.seq == 0xFFFFFFFF {
+				lastOld = i
+			}
+		}
+		if lastOld >= 1 && lastOld+3 < len(fs) && fs[lastOld+1].seq == 1 {
+			for _, sf := range fs[:lastOld] {
+				if err := deliver(sf); err != nil {
+					e.Fail("fresh-frame-refused/in-order/before-the-wrap", "frame number %d before the wrap does not unseal: %v", sf.seq, err)
+				}
+			}
+			var errOld, errNew error
+			st := simsync.RunTasks(func(n, cur int) int {
+				if cur >= 0 && !tp.Chance(1, 2) {
+					return cur
+				}
+				return tp.Intn(n)
+			}, []func(){
+				func() { errOld = deliver(fs[lastOld]) },
+				func() { errNew = deliver(fs[lastOld+1]) },
+			})
+			if st.Deadlock {
+				e.Fail("receiver-tasks-deadlock", "two concurrent Unseal calls deadlocked")
+			}
+			for _, p := range st.Panics {
+				e.Fail("panic-in-unseal", "a receive task panicked: %v", p)
+			}
+			e.Ev("two-rx", b2u(errOld == nil), b2u(errNew == nil))
+			if errNew != nil {
+				// the first frame of the new epoch lost: the sender would go on, so does the test
+				e.Probe("first_frame_of_new_epoch_refused_under_concurrency")
+			}
+			for _, sf := range fs[lastOld+2:] {
+				if err := deliver(sf); err != nil {
+					e.Fail("fresh-frame-refused/two-receive-workers-at-the-wrap",
+						"the last frame of the old epoch (result: %v) and the first of the new one (result: %v) were unsealed by two workers at once; afterwards frame number %d of the new epoch does not unseal: %v",
+						errOld, errNew, sf.seq, err)
+				}
+			}
+			e.Probe("two_receive_workers_at_the_wrap")
+		}
+	}
+
 	// ---- the priority class wraps on its own (a quarter of the end-to-end runs) ----
 	// The sender refuses to seal at the wrap (that refusal is outside the claim). What it must
 	// not do is carry on: without a new key every further priority number was used before.
